@@ -232,6 +232,8 @@ def obligations(tier):
                                       carveouts={"join_helper_names": "no column is named __INDEX__ or <left column>_right"}))
     from . import c16
 
+    obs.append(Obligation("C09/R7/collect", "R7", "references (also those taken before a rename / an automatic join suffix) denote the same column with the same data after collect() (native)", c16._conc("collect() on 13 pipelines x keep_col_refs", c16.x3_check),
+                          functions=[H.fn_info(verbs_mod.collect), H.fn_info(H.table_impl_mod.TableImpl.from_resource)], bounded="13 concrete pipelines on two frames (native Polars execution)"))
     obs.append(Obligation("C09/R6/self_join_sides", "R6", "aliased self-join: a reference through either table object denotes that side (native)", c16._conc("references through either table object of an aliased self-join denote that side", c16.x5b_check),
                           functions=[fi(verbs_mod.join), fi(H.verbs_tree.Join._clone) if hasattr(H, "verbs_tree") else fi(verbs_mod.join)], bounded="4 concrete self-join shapes x 2 backends (native execution against a hand-computed expectation)"))
     return obs
